@@ -53,6 +53,49 @@ Section NthApply.
     end.
 End NthApply.
 
+(* the sub-list a multi-branch selects: element i is kept iff bit i of the mask is set *)
+Fixpoint select {X} (mask i : nat) (l : list X) : list X :=
+  match l with
+  | [] => []
+  | a :: l' => if Nat.testbit mask i then a :: select mask (S i) l' else select mask (S i) l'
+  end.
+
+Section MapMask.
+  Context {X Y : Type}.
+  Variable f : X -> res Y.
+  Fixpoint mapM_mask (mask i : nat) (l : list X) : res (list Y) :=
+    match l with
+    | [] => Ok []
+    | a :: l' =>
+        if Nat.testbit mask i
+        then do b <- f a; do bs <- mapM_mask mask (S i) l'; Ok (b :: bs)
+        else mapM_mask mask (S i) l'
+    end.
+  Variable g : nat -> X -> res Y.
+  (* j counts the selected elements (the position of the source at the fan-in) *)
+  Fixpoint mapMi_mask (mask i j : nat) (l : list X) : res (list Y) :=
+    match l with
+    | [] => Ok []
+    | a :: l' =>
+        if Nat.testbit mask i
+        then do b <- g j a; do bs <- mapMi_mask mask (S i) (S j) l'; Ok (b :: bs)
+        else mapMi_mask mask (S i) j l'
+    end.
+  Variable h : X -> bool.
+  Fixpoint forallb_mask (mask i : nat) (l : list X) : bool :=
+    match l with
+    | [] => true
+    | a :: l' => (if Nat.testbit mask i then h a else true) && forallb_mask mask (S i) l'
+    end.
+  Context {Z : Type}.
+  Variable k : X -> list Z.
+  Fixpoint flat_map_mask (mask i : nat) (l : list X) : list Z :=
+    match l with
+    | [] => []
+    | a :: l' => (if Nat.testbit mask i then k a else []) ++ flat_map_mask mask (S i) l'
+    end.
+End MapMask.
+
 (* ------------------------------------------------------------------ string helpers *)
 Fixpoint stake (n : nat) (s : string) : string :=
   match n, s with
@@ -186,6 +229,16 @@ Definition choice (c : cspec) (x : val) : res nat :=
 
 Definition nat_concat (_ : list nat) : res nat := Err e_type.   (* []string results are never concatenated *)
 
+(* multi-branch conditions: a non-empty set of alternatives, as a bit mask, from the whole input *)
+Definition mchoice (c : cspec) (x : val) : res nat :=
+  if cs_fail c then Err e_node else Ok (S (Nat.modulo (size_val x) (Nat.pow 2 (cs_n c) - 1))).
+
+Definition mcond_of_spec (c : cspec) : node val nat :=
+  {| nI := if cs_collect c then None else Some (mchoice c);
+     nS := None;
+     nC := if cs_collect c then Some (fun s => do x <- vsconcat s; mchoice c x) else None;
+     nT := None |}.
+
 Definition cond_of_spec (c : cspec) : node val nat :=
   {| nI := if cs_collect c then None else Some (choice c);
      nS := None;
@@ -257,6 +310,9 @@ Inductive prog : Type :=
 | PSub (w : wrap) (p : prog)                        (* nested graph added as a node *)
 | PMap (f : fmap)                                   (* Workflow: field mapping on the data edges that follow *)
 | PCheck (want_map : bool)                          (* run-time type check on the edges leaving an any-typed node *)
+| PId                                               (* nothing: a branch alternative that leads straight to the join / END *)
+| PMulti (id : N) (c : node val nat) (alts : list prog)
+    (* multi-branch: the condition selects a set of alternatives (bit mask); they run side by side and fan in *)
 | PLoop (id : N) (c : node val nat) (body : prog) (fuel : nat).
     (* cycle: a branch on the body's last node leads back to its first node (choice 0) or on *)
 
@@ -294,6 +350,11 @@ Fixpoint run_value (p : prog) (x : val) : res val :=
   | PSub w p => wrap_value w (run_value p) x
   | PMap f => v_fmap f x
   | PCheck m => v_check m x
+  | PId => Ok x
+  | PMulti _ c alts =>
+      do mask <- view_I nat_concat c x;
+      do ys <- mapM_mask (fun p => run_value p x) mask 0 alts;
+      match ys with [] => Err e_branch | _ => v_merge ys end
   | PLoop _ c body fuel => loop_res (fun _ => run_value body) (again_value c) fuel x
   end.
 
@@ -315,6 +376,11 @@ Section StreamMode.
     | PSub w p => wrap_stream w (run_stream (0%nat :: pos) p) s
     | PMap f => Ok (s_fmap f s)
     | PCheck m => Ok (s_check m s)
+    | PId => Ok s
+    | PMulti _ c alts =>
+        do mask <- view_C vconcat nat_concat c s;
+        do os <- mapMi_mask (fun j p => run_stream (j :: pos) p s) mask 0 0 alts;
+        match os with [] => Err e_branch | _ => Ok (s_merge (mrg pos) os) end
     | PLoop _ c body fuel => loop_res (fun k => run_stream (k :: pos) body) (again_stream c) fuel s
     end.
 
@@ -356,6 +422,13 @@ Fixpoint calls_value (p : prog) (x : val) : list (N * par) :=
   | PSub w p => wrap_calls PI w (match wrap_inner_value w x with Ok x2 => calls_value p x2 | _ => [] end)
   | PMap _ => []
   | PCheck _ => []
+  | PId => []
+  | PMulti id c alts =>
+      map (fun u => (id, u)) (olist (used c PI)) ++
+      match view_I nat_concat c x with
+      | Ok mask => flat_map_mask (fun a => calls_value a x) mask 0 alts
+      | _ => []
+      end
   | PLoop id c body fuel =>
       loop_calls (fun _ => run_value body) (again_value c) (calls_value body)
                  (map (fun u => (id, u)) (olist (used c PI))) fuel x
@@ -377,6 +450,13 @@ Fixpoint calls_stream (p : prog) (x : val) : list (N * par) :=
   | PSub w p => wrap_calls PT w (match wrap_inner_value w x with Ok x2 => calls_stream p x2 | _ => [] end)
   | PMap _ => []
   | PCheck _ => []
+  | PId => []
+  | PMulti id c alts =>
+      map (fun u => (id, u)) (olist (used c PC)) ++
+      match view_I nat_concat c x with
+      | Ok mask => flat_map_mask (fun a => calls_stream a x) mask 0 alts
+      | _ => []
+      end
   | PLoop id c body fuel =>
       loop_calls (fun _ => run_value body) (again_value c) (calls_stream body)
                  (map (fun u => (id, u)) (olist (used c PC))) fuel x
@@ -419,5 +499,13 @@ Fixpoint dom_ok (p : prog) (x : val) : bool :=
   | PSub w p => inkey_ok w x && match wrap_inner_value w x with Ok x2 => dom_ok p x2 | _ => true end
   | PMap f => fmap_dom f x
   | PCheck _ => true
+  | PId => true
+  | PMulti _ c alts =>
+      match view_I nat_concat c x with
+      | Ok mask =>
+          forallb_mask (fun p => dom_ok p x) mask 0 alts &&
+          match mapM_mask (fun p => run_value p x) mask 0 alts with Ok ys => fanin_ok ys | _ => true end
+      | _ => true
+      end
   | PLoop _ c body fuel => loop_dom (fun _ => run_value body) (again_value c) (dom_ok body) fuel x
   end.
